@@ -7,8 +7,15 @@ use serde_json::{json, Value};
 
 const INF_RANK: i64 = 1_000_000;
 
+/// the value an untouched slot holds (the crate's "type maximum", f64::MAX today): read from a new tracker, so that the
+/// property - the maximum of the per-slot minima - is checked whatever that constant is
+fn inf() -> f64 {
+    static INF: std::sync::OnceLock<f64> = std::sync::OnceLock::new();
+    *INF.get_or_init(|| VerifMaxTracker::new(1).get_max_value())
+}
+
 fn value_map(v: usize, rng: &mut impl Rng) -> Vec<f64> {
-    // strictly increasing random reals for 0..v-1, f64::MAX for v; sometimes adjacent floats
+    // strictly increasing random reals for 0..v-1, the type maximum for v; sometimes adjacent floats
     let mut xs: Vec<f64> = Vec::with_capacity(v + 1);
     let style = rng.random_range(0..4);
     let mut cur: f64 = match style {
@@ -24,7 +31,7 @@ fn value_map(v: usize, rng: &mut impl Rng) -> Vec<f64> {
             _ => cur * (1.0 + rng.random::<f64>()) + f64::MIN_POSITIVE,
         };
     }
-    xs.push(f64::MAX);
+    xs.push(inf());
     xs
 }
 
@@ -145,12 +152,12 @@ fn record(a: &Args) {
         };
         let pool_n = if run % 2 == 0 { rng.random_range(2..6) } else { rng.random_range(6..40) };
         let mut pool = value_map(pool_n, &mut rng);
-        // pool includes f64::MAX as last
+        // pool includes the type maximum as last
         if run % 3 == 0 {
             pool[0] = 0.0;
         }
-        let ranker = Ranker::build(pool.iter().cloned().filter(|x| *x != f64::MAX), 0);
-        let rk = |x: f64| if x == f64::MAX { INF_RANK } else { ranker.rank(x) };
+        let ranker = Ranker::build(pool.iter().cloned().filter(|x| *x != inf()), 0);
+        let rk = |x: f64| if x == inf() { INF_RANK } else { ranker.rank(x) };
         out.line(&json!({"op": "new", "run": run, "m": m}));
         let mut tr = match catch(|| VerifMaxTracker::new(m)) {
             Ok(t) => t,
@@ -264,7 +271,7 @@ fn longlife(a: &Args) {
                 if at_check {
                     checks += 1;
                     let (leaves, mx) = observe(&old, m);
-                    let fresh_like = leaves.iter().all(|v| *v == f64::MAX) && mx == f64::MAX && old.is_update_possible(1.0e300);
+                    let fresh_like = leaves.iter().all(|v| *v == inf()) && mx == inf() && old.is_update_possible(inf() / 2.0);
                     // (in the fill-once regime the object is only looked at, so that nothing but slot 0 is ever rewritten)
                     let ups: Vec<(usize, f64)> = if rotate { (0..(2 * m)).map(|_| (rng.random_range(0..m), rng.random_range(0.0..100.0))).collect() } else { Vec::new() };
                     let mut fresh = VerifMaxTracker::new(m);
